@@ -413,6 +413,7 @@ def coverage_case(cid="coverage"):
             M("route_in", [P("in", "HR32", "rt")]),
             M("mix", [P("in", "buffer", "a"), P("in", "uint32", "x"), P("in", "IPeer", "p"), P("out", "uint64", "y"), P("out", "buffer", "b"), P("out", "IPeer", "q")]),
             M("opt", [P("in", "uint32", "x"), P("out", "uint32", "y")], optional=True),
+            dict(M("opt_impl", [P("in", "uint16", "x"), P("out", "uint64", "y")], optional=True), implemented=True),
         ]},
         {"k": "interface", "name": "IDer", "base": "ICov", "members": [
             M("extra", [P("in", "uint32", "x"), P("in", "B24", "s"), P("out", "uint32", "y")]),
@@ -475,3 +476,21 @@ def coverage_case2(cid="coverage2"):
         ]},
     ]
     return {"id": cid, "files": [{"path": "main.idl", "nodes": nodes}], "main": "main.idl", "incdirs": [], "langs": ["c", "rust"]}
+
+
+def name_main_after_iface(case, rng, which=None):
+    """the usual Mink naming: the main file is called like one of its interfaces (as written or
+    lower-cased); returns the case (modified in place) or None when it does not apply"""
+    import os
+    main_f = next(f for f in case["files"] if f["path"] == case["main"])
+    ifs_ = [x["name"] for x in main_f["nodes"] if x["k"] == "interface"]
+    if not ifs_ or os.path.dirname(case["main"]) != "":
+        return None
+    nm = which if which is not None else rng.choice(ifs_)
+    nm = rng.choice([nm, nm.lower()]) + ".idl"
+    if any(f["path"].lower() == nm.lower() for f in case["files"]):
+        return None
+    main_f["path"] = nm
+    case["main"] = nm
+    case.pop("fsmodel", None)
+    return case
